@@ -29,7 +29,7 @@ ASSUME_KANI = [
 
 PROPS = {
     "C05": dict(
-        units={"quick": [(BROKER, "channel")], "thorough": [(BROKER, "channel_t")]},
+        units={"quick": [(BROKER, "channel"), (BROKER, "chan_handlers")], "thorough": [(BROKER, "channel_t"), (BROKER, "chan_handlers")]},
         level="proof",
         timeout={"quick": 600, "thorough": 1500},
         jobs={"quick": 12, "thorough": 8},
@@ -166,7 +166,7 @@ PROPS = {
         level_note="tbd",
     ),
     "C03": dict(
-        units={"quick": [(BROKER, "reg_object@2")], "thorough": [(BROKER, "reg_object@2")]},
+        units={"quick": [(BROKER, "reg_object@2"), (BROKER, "reg_service@2")], "thorough": [(BROKER, "reg_object@2"), (BROKER, "reg_service@2")]},
         level="other",
         timeout={"quick": 1200, "thorough": 2400},
         jobs={"quick": 14, "thorough": 14},
